@@ -70,3 +70,9 @@ TEXT["C12"] = dict(
     note="Trusts net.IPNet.Contains, netip.Prefix.Contains and netip.Addr.Compare. IPv4-mapped 16-byte probe addresses are excluded from the IPv6 membership comparison because package net and package netip disagree about them independently of golibs.",
     technique="runtime differential monitor (byte-level reference, membership probes, reference sort order)",
 )
+
+TEXT["C01"] = dict(
+    level="Totality runtime monitoring under checkptr: ~35 string entry-point groups and 8 typed ones are called with recover() on every input of the shared generators (name/ARPA label sequences, hosts lines, URL texts, address alphabets, fold-orbit runes, duration texts, 70 KB token runs, repository table rows; net.IP/IPMask of every length), every returned error is formatted and unwrapped, fatal process errors are attributed through a crash-surviving cursor, and a watchdog plus solo re-run decides bounded progress. Exploration: a crash needs one particular input shape and only generated shapes are observed.",
+    note="'Never loops without bound' is decided only as bounded progress (10 s / 60 s). Documented 'must' preconditions are honoured, 'should' ones deliberately not.",
+    technique="runtime crash/hang monitor (recover + crash-surviving cursor + watchdog) under checkptr over generated hostile inputs",
+)
